@@ -599,7 +599,7 @@ def run(ctx):
     if not ctx.quick:
         required += ["tick", "dropped_by_retention"]
     required += ["res:hang"]
-    chosen, covered = select(ctx, files, ctx.pick(36, 420), ctx.pick(6.5, 12.0), ctx.pick(3, 40), required)
+    chosen, covered = select(ctx, files, ctx.pick(36, 600), ctx.pick(6.5, 12.0), ctx.pick(3, 60), required)
     st, js = replay(ctx, [c[0] for c in chosen], "scripts", par=ctx.pick(PAR, "16"))
     ctx.log("replay: %d behaviours, %d events, %d attempts compared with TLC's (%s), %d hooks judged at quiescence (%d messages), "
             "%d refused attempts observed, %d mid-batch failures, %d failover deliveries, %d hangs, %d not judged (slow), "
@@ -629,8 +629,8 @@ def run(ctx):
 def rest(ctx, st, chosen, covered, res, intended, refuted, taken, sims, ngen):
     nburst = live_burst(ctx)
     summ, recs, nm2, tlines, tr = concurrent_legs(ctx, [
-        ("faults", ctx.pick(8, 70), ctx.seed, ["-ops", ctx.pick("24", "30")]),
-        ("nofaults", ctx.pick(8, 70), ctx.seed + 1000, ["-faults=false", "-pace", "1ms", "-writers", "5", "-ops", ctx.pick("24", "40")])])
+        ("faults", ctx.pick(8, 90), ctx.seed, ["-ops", ctx.pick("24", "30")]),
+        ("nofaults", ctx.pick(8, 90), ctx.seed + 1000, ["-faults=false", "-pace", "1ms", "-writers", "5", "-ops", ctx.pick("24", "40")])])
     cj, cj2 = recs[0][2], recs[1][2]
     ctx.log("concurrent runs: %d + %d recorded (%d too slow), %d streams with %d items judged by NotifyTrace, %d rejected; "
             "%d requests answered 503, %d + %d failure windows"
